@@ -258,7 +258,9 @@ def execute(ctx, case, circ, model, backend, det, bits, psi0, factory, rnd_fallb
         comp = RecStab() if backend == "stab" else RecDM()
     comp.recorded = []
     comp.measurement_determinism = det
-    script = OutcomeScript(bits, fallback=rnd_fallback if rnd_fallback is not None else 0)
+    # under a forced setting the RNG should not matter: if the backend consults it anyway, the scheduler answers with
+    # the outcome opposite to the forced one (adversarial but legal), so that a setting that is silently ignored shows
+    script = OutcomeScript(bits, fallback=rnd_fallback if rnd_fallback is not None else ((1 - det) if det in (0, 1) else 0))
     init = None
     if factory is not None:
         init = factory(backend)
